@@ -191,7 +191,7 @@ func modTarget(m string, body []*N) (target, stmt string, ok bool) {
 }
 
 func build(s Structure) (r rendered, applicable bool) {
-	if s.Def == "submodule" && len(s.Body) > 0 && s.Body[0] == "iffeature" {
+	if s.Def == "submodule" && strings.Contains(" "+strings.Join(s.Body, " ")+" ", " iffeature ") {
 		// the in-place variant would name a feature of the submodule from the module, which this
 		// compiler does not resolve (see C14): no in-place equivalent to compare with
 		return r, false
